@@ -193,3 +193,16 @@ check("C07",
       "kernel's and only sampled; members that leave the process group are outside the property; arrival points are sampled (three offsets + two shim points), "
       "the model covers all of them. Trusted: Lean kernel; shim; harness.",
       "DESIGN.md#c07")
+
+check("C12",
+      "Lean 4 proof of totality, documented exit status and no-stdout-on-reject for the step-file, interpolation and regress-log models + ASan/UBSan runs of every CLI on mutated grammar-derived and raw inputs, compared with the models where one exists",
+      "Proof: the model functions for robsd-step -R/-W, interpolation and robsd-regress-log are total and terminating on every byte string (accepted by Lean without "
+      "`partial`), exit with a documented status (step_read_exit_documented, step_write_exit_documented, rlog_exit_documented) and print nothing when they reject "
+      "(step_read_reject_no_stdout, rlog_reject_no_stdout, interp_reject_no_stdout). Implementation side (sampled, sanitizer builds): robsd-config, robsd-ls, "
+      "robsd-hook, robsd-step -L/-R/-W, robsd-regress-log, robsd-report, robsd-regress-html on grammar-derived configurations of the five modes (many regress entries "
+      "with options, 16/17/33/64 canvas steps), step files, logs and templates, mutated (NUL, truncation, duplication, huge integers, 300..70000-byte tokens, nested "
+      "and unterminated ${, unterminated strings/braces, keyword splices) and raw random bytes: no sanitizer report, no signal, no hang, documented exit, nothing "
+      "on stdout and a diagnostic on rejection, rejected writes leave the file alone; -R and regress-log outputs equal the models on the same bytes.",
+      "Partial by nature: absence of memory errors and undefined behaviour in the C text is not decided by the proof, only sampled; the configuration parser has "
+      "no model here (its exit class, stdout, stderr and sanitizer behaviour are judged). Trusted: Lean kernel; ASan/UBSan; harness.",
+      "DESIGN.md#c12")
